@@ -293,8 +293,8 @@ func c12(c *fw.Ctx) {
 				}
 			})
 		}
-		c.Floor("matrices_"+ws.Name, 200)
-		c.Floor("errors_"+ws.Name, 200)
+		c.Floor("matrices_"+ws.Name, 60)
+		c.Floor("errors_"+ws.Name, 60)
 	}
 	// every writer x every format value, valid content
 	c.Run("formats", func(r *fw.Rec) {
@@ -325,5 +325,5 @@ func c12(c *fw.Ctx) {
 	})
 	c.Exhaustive("11 writers x 17 BarcodeFormat values (valid content)")
 	c.Floor("writer_format_pairs", 187)
-	c.Floor("natural_size_checked", 2000)
+	c.Floor("natural_size_checked", 1000)
 }
